@@ -35,4 +35,16 @@ for a, b in mirror:
     if sorted(a) != sorted(b):
         print('SELFTEST FAILED: Spec/Ducky.lean and spec/tables.json disagree:', sorted(set(a) ^ set(b)))
         sys.exit(1)
-print('selftest ok: model and implementation agree on', len(cases), 'fixed programs')
+# every property module imports and its generator runs in both tiers (a generator that raises would make its check unusable)
+import importlib, os, gen
+os.environ.setdefault('VERIF_QUICK_SCALE', '1')
+for k in range(1, 21):
+    pid = 'C%02d' % k
+    try:
+        mod = importlib.import_module('props.' + pid)
+        n = len(mod.generate(gen.Gen(0), 'quick'))
+        assert n > 0 and callable(mod.oracle)
+    except Exception as ex:
+        print('SELFTEST FAILED: generator of', pid, 'raises', type(ex).__name__, ex)
+        sys.exit(1)
+print('selftest ok: model and implementation agree on', len(cases), 'fixed programs; 20 generators run')
